@@ -37,12 +37,17 @@ GeoDrift(e) == IF ~Plain(e) THEN {} ELSE
 RecH(e) == [a |-> e.H[1], b |-> e.H[2], c |-> e.H[3], e |-> e.H[4], pb |-> e.H[5], pa |-> e.H[6]]
 Slot(tiles, first, y) == IF y - first < tiles[2] THEN tiles[1] + (y - first) ELSE tiles[3] + (y - first - tiles[2])
 
+(* the buffer is tracked per (slot, channel): a depth-wise consumer may legitimately run on the channels of a row whose
+   other channels are still to come, so "produced" and "still held" are statements about (row, channel) cells *)
+CellsRead(e) == LET i == e.op + 1  r == RecH(e) IN
+    { <<y, ch>> : y \in ReadRows(g.p[i], r), ch \in e.C[3]..(e.C[4] - 1) }
+HeldVal(i, e, cell) == LET sl == Slot(e.rd, e.H[3], cell[1]) IN
+    IF <<sl, cell[2]>> \in DOMAIN buf[i] THEN buf[i][<<sl, cell[2]>>] ELSE 1000000
 ReadViol(e) ==
-    LET i == e.op + 1  r == RecH(e)  rows == ReadRows(g.p[i], r) IN
+    LET i == e.op + 1 IN
     IF i = 1 THEN {} ELSE
-      { <<e.t, e.q, e.op, "ReadBeforeProduced">> : y \in { z \in rows : z >= done[i - 1] } }
-      \cup { <<e.t, e.q, e.op, "NoEarlyOverwrite">> : y \in { z \in rows : z < done[i - 1] /\
-                 LET sl == Slot(e.rd, r.c, z) IN ~(sl \in DOMAIN buf[i] /\ buf[i][sl] = z) } }
+      { <<e.t, e.q, e.op, "ReadBeforeProduced">> : c \in { x \in CellsRead(e) : HeldVal(i, e, x) < x[1] } }
+      \cup { <<e.t, e.q, e.op, "NoEarlyOverwrite">> : c \in { x \in CellsRead(e) : HeldVal(i, e, x) > x[1] } }
 StepDrift(e) ==
     LET i == e.op + 1  r == RecH(e) IN
     IF ~g.plain THEN {} ELSE
@@ -50,12 +55,13 @@ StepDrift(e) ==
       \cup (IF r.a # done[i] \/ r.b # Min(done[i] + g.h[i], g.O[i] + g.p[i].wo) THEN {<<e.t, e.q, e.op, "StripeRows">>} ELSE {})
 Written(e) ==
     LET i == e.op + 1  r == RecH(e) IN
-      [sl \in DOMAIN buf[i + 1] |->
-          LET rows == { y \in r.a..(r.b - 1) : Slot(e.wr, r.a, y) = sl } IN IF rows = {} THEN buf[i + 1][sl] ELSE MaxOf(rows)]
+      [cell \in DOMAIN buf[i + 1] |->
+          LET rows == { y \in r.a..(r.b - 1) : Slot(e.wr, r.a, y) = cell[1] } IN
+            IF rows = {} \/ cell[2] < e.C[1] \/ cell[2] >= e.C[2] THEN buf[i + 1][cell] ELSE MaxOf(rows)]
 WriteViol(e) ==
     LET i == e.op + 1  r == RecH(e) IN
       IF i = g.n THEN {} ELSE
-        { <<e.t, e.q, e.op, "TileAddressing">> : y \in { z \in r.a..(r.b - 1) : Slot(e.wr, r.a, z) \notin DOMAIN buf[i + 1] } }
+        { <<e.t, e.q, e.op, "TileAddressing">> : y \in { z \in r.a..(r.b - 1) : <<Slot(e.wr, r.a, z), e.C[1]>> \notin DOMAIN buf[i + 1] } }
 
 NoGeo == [n |-> 0]
 TInit == l = 1 /\ viol = {} /\ drift = {} /\ cur = -1 /\ g = NoGeo /\ done = <<>> /\ buf = <<>>
@@ -65,7 +71,8 @@ TNext ==
     /\ CASE Ev.e = "Hdr" ->
               /\ g' = GeoOf(Ev) /\ cur' = Ev.t
               /\ done' = [i \in 1..Ev.n |-> Ev.ops[i].ax.H.wo]
-              /\ buf' = [i \in 1..Ev.n |-> IF i = 1 THEN <<>> ELSE [sl \in 0..(Ev.ops[i].store - 1) |-> -1]]
+              /\ buf' = [i \in 1..Ev.n |-> IF i = 1 THEN <<>>
+                                           ELSE [cell \in (0..(Ev.ops[i].store - 1)) \X (0..(Ev.ops[i].ax.C.I - 1)) |-> -1]]
               /\ drift' = drift \cup GeoDrift(Ev)
               /\ UNCHANGED viol
          [] Ev.e = "S" ->
@@ -76,7 +83,7 @@ TNext ==
               /\ viol' = viol \cup ReadViol(Ev) \cup WriteViol(Ev)
               /\ drift' = drift \cup StepDrift(Ev)
               /\ done' = IF whole THEN [done EXCEPT ![i] = Ev.H[2]] ELSE done
-              /\ buf' = IF i < g.n /\ whole THEN [buf EXCEPT ![i + 1] = Written(Ev)] ELSE buf
+              /\ buf' = IF i < g.n THEN [buf EXCEPT ![i + 1] = Written(Ev)] ELSE buf
               /\ UNCHANGED <<g, cur>>
          [] Ev.e = "End" ->
               /\ viol' = viol \cup (IF done[g.n] # g.O[g.n] + g.p[g.n].wo THEN {<<Ev.t, -1, g.n - 1, "Incomplete">>} ELSE {})
